@@ -9,3 +9,4 @@ pub mod canary;
 pub mod core_contracts;
 pub mod c01;
 pub mod life;
+pub mod c03;
